@@ -75,35 +75,48 @@ theorem validator_pattern_is_schema {k : Nat} {r : RE Char} {s : SRE}
     proved equal to the port of get_cleaned_token in `Model/CollapseTheory.lean`), is in the language
     of the *schema's* pattern -/
 theorem token_pattern_type_accepts_iff_schema (fuel : Nat) (d : Values.SimpleDef) (k : Nat) (i sp : SRE)
-    (h : TokenPattern d k) (hi : lookS k patternsS = some i) (hs : lookS k specPatternsS = some sp) (x : String) :
+    (h : TokenPattern d k) (hk : (d.key == valuesEnv.dateKey) = false)
+    (hi : lookS k patternsS = some i) (hs : lookS k specPatternsS = some sp) (x : String) :
     Values.validate valuesEnv (fuel + 1) d (.str x) = .ok ↔
       RE.rmatch sp.toREc (Values.collapseX x.toList) = true := by
   rw [← Values.cleanedToken_eq_collapse]
   have hr : Values.lookupPat k valuesEnv.pats = some i.toREc := by
     have e : valuesEnv.pats = patternsS.map fun p => (p.1, p.2.toREc) := rfl
     rw [e, lookupPat_map, hi]; rfl
-  rw [token_pattern_accepts_iff valuesEnv fuel d k i.toREc h hr x,
+  rw [token_pattern_accepts_iff valuesEnv fuel d k i.toREc h hk hr x,
     pattern_language_is_schema (lookS_mem hi) hs]
 
-/-- the same for the types matched without white-space collapse; instance: **xs:date accepts exactly
-    the W3C lexical representation** (`xsDate_accepts_iff_w3c` below) -/
+/-- the same for the types matched without white-space collapse (ID, IDREF, NCName, glyph-name subtypes) -/
 theorem plain_pattern_type_accepts_iff_schema (fuel : Nat) (d : Values.SimpleDef) (k : Nat) (i sp : SRE)
-    (h : PlainPattern d k) (hi : lookS k patternsS = some i) (hs : lookS k specPatternsS = some sp) (x : String) :
+    (h : PlainPattern d k) (hk : (d.key == valuesEnv.dateKey) = false)
+    (hi : lookS k patternsS = some i) (hs : lookS k specPatternsS = some sp) (x : String) :
     Values.validate valuesEnv (fuel + 1) d (.str x) = .ok ↔ RE.rmatch sp.toREc x.toList = true := by
   have hr : Values.lookupPat k valuesEnv.pats = some i.toREc := by
     have e : valuesEnv.pats = patternsS.map fun p => (p.1, p.2.toREc) := rfl
     rw [e, lookupPat_map, hi]; rfl
-  rw [plain_pattern_accepts_iff valuesEnv fuel d k i.toREc h hr x,
+  rw [plain_pattern_accepts_iff valuesEnv fuel d k i.toREc h hk hr x,
+    pattern_language_is_schema (lookS_mem hi) hs]
+
+/-- **xs:date accepts exactly the W3C lexical representation with an existing day of the month** -/
+theorem xsDate_accepts_iff_w3c (fuel : Nat) (d : Values.SimpleDef) (k : Nat) (i sp : SRE)
+    (h : PlainPattern d k) (hk : (d.key == valuesEnv.dateKey) = true)
+    (hi : lookS k patternsS = some i) (hs : lookS k specPatternsS = some sp) (x : String) :
+    Values.validate valuesEnv (fuel + 1) d (.str x) = .ok ↔
+      (RE.rmatch sp.toREc x.toList = true ∧ Values.dateDayOk x.toList = true) := by
+  have hr : Values.lookupPat k valuesEnv.pats = some i.toREc := by
+    have e : valuesEnv.pats = patternsS.map fun p => (p.1, p.2.toREc) := rfl
+    rw [e, lookupPat_map, hi]; rfl
+  rw [date_accepts_iff valuesEnv fuel d k i.toREc h hk hr x,
     pattern_language_is_schema (lookS_mem hi) hs]
 
 def isPlainPattern (d : Values.SimpleDef) : Bool :=
   d.pyTypes == [0] && d.union.isEmpty && d.forced.isEmpty && d.permitted.isEmpty && d.pattern.isSome &&
   d.base == 0 && !d.isNonNeg && !d.isPositive
 
-/-- the definition the table holds for XSDSimpleTypeDate is such a type, with both expressions present -/
+/-- the definition the table holds for XSDSimpleTypeDate meets the hypotheses of `xsDate_accepts_iff_w3c` -/
 theorem xsDate_is_plain_pattern :
     (match Values.lookupDef valuesEnv.dateKey simpleDefs with
-     | some d => isPlainPattern d && d.pattern == some valuesEnv.dateKey &&
+     | some d => isPlainPattern d && d.pattern == some valuesEnv.dateKey && d.key == valuesEnv.dateKey &&
          (lookS valuesEnv.dateKey patternsS).isSome && (lookS valuesEnv.dateKey specPatternsS).isSome
      | none => false) = true := by decide +kernel
 
@@ -143,6 +156,7 @@ end C05
 #print axioms C05.validator_pattern_is_schema
 #print axioms C05.token_pattern_type_accepts_iff_schema
 #print axioms C05.plain_pattern_type_accepts_iff_schema
+#print axioms C05.xsDate_accepts_iff_w3c
 #print axioms C05.xsDate_is_plain_pattern
 #print axioms C05.isTokenPattern_sound
 #print axioms C05.token_pattern_types_exist
